@@ -131,6 +131,8 @@ class BSplineTransform(ParametricTransform, NonRigidTransform):
                     raise ValueError(
                         f"{type(self).__name__}.grid_() argument must have same size or new size '2n - 1'"
                     )
+        if self._grid != grid:
+            self.clear_buffers()
         self._grid = grid
         if subdivide_dims:
             new_shape = (params.shape[0],) + self.data_shape
